@@ -98,10 +98,7 @@ def main():
         out["checks"] = {}
         for p in props:
             res = run_check(p, wt, "quick")
-            out["checks"][p + ":quick-nopairs"] = res
-            if res["violation_lines"] == 0:
-                res = run_check(p, wt, "quick", pairs=True)
-                out["checks"][p + ":quick"] = res
+            out["checks"][p + ":quick"] = res
             if res["violation_lines"] == 0 and thorough:
                 out["checks"][p + ":thorough"] = run_check(p, wt, "thorough")
         out["detected_by"] = [k for k, v in out["checks"].items()
